@@ -88,6 +88,8 @@ enum Op {
     Delete(u8),
     Exists(u8),
     Scan,
+    /// durable part only: checkpoint (snapshot + marker + log truncation) next to the writers
+    Checkpoint,
 }
 
 #[derive(Clone, Debug, Serialize, Deserialize)]
@@ -111,7 +113,7 @@ fn case_strategy(t: Tier, with_reads: bool) -> impl Strategy<Value = Case> {
             ]
             .boxed()
         } else {
-            prop_oneof![4 => (0..keys).prop_map(Op::Put), 1 => (0..keys).prop_map(Op::Delete)].boxed()
+            prop_oneof![8 => (0..keys).prop_map(Op::Put), 2 => (0..keys).prop_map(Op::Delete), 1 => Just(Op::Checkpoint)].boxed()
         };
         (
             Just(class),
@@ -172,6 +174,7 @@ fn step(state: &State, e: &Ev) -> Option<State> {
             Some(s)
         },
         (Op::Exists(k), Res::Bool(b)) => (*b == state[*k as usize].is_some()).then(|| state.clone()),
+        (Op::Checkpoint, _) => Some(state.clone()),
         (Op::Scan, Res::Keys(ks)) => {
             let live: BTreeSet<u8> = state.iter().enumerate().filter(|(_, v)| v.is_some()).map(|(i, _)| i as u8).collect();
             (live == *ks).then(|| state.clone())
@@ -211,7 +214,7 @@ fn linearizable(evs: &[Ev], init: &State) -> bool {
 fn key_of(op: &Op) -> Option<u8> {
     match op {
         Op::Put(k) | Op::Get(k) | Op::Delete(k) | Op::Exists(k) => Some(*k),
-        Op::Scan => None,
+        Op::Scan | Op::Checkpoint => None,
     }
 }
 
@@ -280,6 +283,7 @@ fn check_history(evs: &[Ev], keys: u8, ctx: &mut CaseCtx, class: &str) -> Result
                 Op::Delete(_) => "delete",
                 Op::Exists(_) => "exists",
                 Op::Scan => "scan",
+                Op::Checkpoint => "checkpoint",
             })
             .collect();
         ctx.fail(
@@ -307,6 +311,8 @@ fn overlapping_write(evs: &[Ev]) -> bool {
 // ------------------------------------------------------------------ running scripts
 
 struct Run {
+    /// where `Op::Checkpoint` writes its snapshot (durable part)
+    snap: Option<std::path::PathBuf>,
     store: TensorStore,
     clock: AtomicU64,
     tags: AtomicU64,
@@ -339,6 +345,12 @@ fn do_op(r: &Run, thread: usize, class: u8, keys: u8, op: &Op, durable: bool) {
             Res::DeleteOk(ok)
         },
         Op::Exists(k) => Res::Bool(r.store.exists(&key_name(class, *k))),
+        Op::Checkpoint => {
+            if let Some(p) = &r.snap {
+                let _ = r.store.checkpoint(p);
+            }
+            Res::Done
+        },
         Op::Scan => {
             let prefix = { let c = CLASSES[class as usize % CLASSES.len()]; if c == "plain" { "k".to_string() } else { c.to_string() } };
             let found: BTreeSet<String> = r.store.scan(&prefix).into_iter().collect();
@@ -358,7 +370,7 @@ fn lin_check(c: &Case, ctx: &mut CaseCtx) -> Result<(), Fail> {
     if bloom {
         ctx.label("store with a Bloom filter");
     }
-    let run = Arc::new(Run { store, clock: AtomicU64::new(0), tags: AtomicU64::new(0), log: Mutex::new(Vec::new()) });
+    let run = Arc::new(Run { snap: None, store, clock: AtomicU64::new(0), tags: AtomicU64::new(0), log: Mutex::new(Vec::new()) });
     let mut scripts: Vec<Box<dyn FnOnce() + Send>> = Vec::new();
     for (ti, script) in c.scripts.iter().enumerate() {
         let (run, script, class_i, keys) = (run.clone(), script.clone(), c.class, c.keys);
@@ -413,7 +425,8 @@ fn durable_check(c: &Case, ctx: &mut CaseCtx) -> Result<(), Fail> {
     let dir = nv_engine::scratch::Dir::new("c11");
     let wal = dir.join("store.wal");
     let store = TensorStore::open_durable(&wal, WalConfig::default()).map_err(|e| Fail::new("harness", e.to_string()))?;
-    let run = Arc::new(Run { store, clock: AtomicU64::new(0), tags: AtomicU64::new(0), log: Mutex::new(Vec::new()) });
+    let snap = dir.join("store.snap");
+    let run = Arc::new(Run { snap: Some(snap.clone()), store, clock: AtomicU64::new(0), tags: AtomicU64::new(0), log: Mutex::new(Vec::new()) });
     let mut scripts: Vec<Box<dyn FnOnce() + Send>> = Vec::new();
     for (ti, script) in c.scripts.iter().enumerate() {
         let (run, script, keys) = (run.clone(), script.clone(), c.keys);
@@ -424,7 +437,7 @@ fn durable_check(c: &Case, ctx: &mut CaseCtx) -> Result<(), Fail> {
             }
         }));
     }
-    let report = sched::run(scripts, &c.schedule, &["store.durable.logged", "store.durable.unlocked"], Duration::from_millis(60));
+    let report = sched::run(scripts, &c.schedule, &["store.durable.logged", "store.durable.unlocked", "store.ckpt.snapshot_written"], Duration::from_millis(60));
     if let Some((t, m)) = report.panics.first() {
         ctx.fail("panic-in-thread", format!("thread {t} panicked: {m}"))?;
     }
@@ -437,13 +450,46 @@ fn durable_check(c: &Case, ctx: &mut CaseCtx) -> Result<(), Fail> {
     let mem = observe(&run.store);
     let copy = dir.join("copy.wal");
     std::fs::copy(&wal, &copy).map_err(|e| Fail::new("harness", e.to_string()))?;
-    let rec = TensorStore::recover(&copy, &WalConfig::default(), None).map_err(|e| Fail::new("recover-failed", format!("recover of a cleanly written log failed: {e}")))?;
+    // what a crash right now leaves: the last checkpoint's snapshot (if any) and the log
+    let snap_copy = dir.join("copy.snap");
+    let with_snap = snap.exists();
+    if with_snap {
+        std::fs::copy(&snap, &snap_copy).map_err(|e| Fail::new("harness", e.to_string()))?;
+        ctx.label("a checkpoint ran next to the writers");
+        if report.trace.iter().any(|(_, s)| *s == "store.ckpt.snapshot_written") {
+            ctx.label("threads switched between the snapshot and the log truncation of a checkpoint");
+            ctx.set_nontrivial();
+        }
+    }
+    let rec = TensorStore::recover(&copy, &WalConfig::default(), with_snap.then_some(snap_copy.as_path())).map_err(|e| Fail::new("recover-failed", format!("recover of a cleanly written log failed: {e}")))?;
     let disk = observe(&rec);
-    if mem != disk {
+    // A checkpoint stores slab-dimension vectors in their compressed form (tensor train for dense
+    // ones: within a tolerance, C07's subject). Around a checkpoint, embedding keys are therefore
+    // compared by the write they hold (the `tag` scalar every value carries), not bit by bit.
+    let by_tag = |st: &TensorStore| -> BTreeMap<String, Option<i64>> {
+        let mut m = BTreeMap::new();
+        let mut keys = st.scan("");
+        keys.sort();
+        for k in keys {
+            if k.starts_with("_cache:") {
+                continue;
+            }
+            if let Ok(d) = st.get(&k) {
+                let t = match d.get("tag") {
+                    Some(TensorValue::Scalar(ScalarValue::Int(t))) => Some(*t),
+                    _ => None,
+                };
+                m.insert(k, t);
+            }
+        }
+        m
+    };
+    let differs = if with_snap && class == "emb:" { by_tag(&run.store) != by_tag(&rec) } else { mem != disk };
+    if differs {
         let k = mem.keys().chain(disk.keys()).find(|k| mem.get(*k) != disk.get(*k)).cloned().unwrap_or_default();
         let tag = |s: &BTreeMap<String, Vec<(String, Vec<u8>)>>| s.get(&k).map(|_| "present").unwrap_or("absent");
         ctx.fail(
-            format!("durable-order-differs:{class}"),
+            if with_snap { format!("durable-state-lost-around-checkpoint:{class}") } else { format!("durable-order-differs:{class}") },
             format!("after all threads finished, key {k:?} is {} in memory and {} after recovering from the log (or holds a different write): the log order is not the order in which the writes took effect", tag(&mem), tag(&disk)),
         )?;
     }
@@ -460,7 +506,7 @@ fn stress_part() -> CustomPart {
             for r in 0..rounds {
                 let class = (r % 5) as u8;
                 let threads = 2 + (r as usize / 5) % 7;
-                let run = Arc::new(Run { store: TensorStore::new(), clock: AtomicU64::new(0), tags: AtomicU64::new(0), log: Mutex::new(Vec::new()) });
+                let run = Arc::new(Run { snap: None, store: TensorStore::new(), clock: AtomicU64::new(0), tags: AtomicU64::new(0), log: Mutex::new(Vec::new()) });
                 let barrier = Arc::new(std::sync::Barrier::new(threads));
                 let hs: Vec<_> = (0..threads)
                     .map(|t| {
